@@ -11,8 +11,17 @@
      fn 4: run [VN fixed15; VL client; VL labels]       -> VL [] (a label was not enabled)
              | VL [VL frames(VL [VN framing; VN m]); main; sid; caps(VL [] | VL [VL uris]); VN base]
              main: VL [VN 0] waiting | VL [VN 1] returned ok | VL [VN 2; VN err(0 timeout,1 session close,2 parse,3 choose)]
-     fn 5: build [VL client]                            -> tree *)
-From NC Require Import Model.Base Model.Caps Model.Writer Model.Negotiate.
+     fn 5: build [VL client]                            -> tree
+     fn 6: frun [VL client; VL flabels]  (Model/NegotiateSched.v, the two-thread system)
+             -> VL [VN 0; VN i]  (label i is not accepted / not a label)
+              | VL [VN 1; VL frames; mpc; sid; caps; VN base; VN pending; VN lis; VN ev; VN conn; VN wpc; err; VL q]
+             flabel: VL [VN k; args] with k = 0 FMReg 1 FMPend 2 FMPutHello 3 FMStart 4 FMWait b 5 FMIsSet b 6 FMUnreg 7 FMCaps
+                     8 FMBase (arg 1 = BASE_11) 9 FMRet 10 FMPut m 11 FWGet m 12 FWPendRd b 13 FWPendClr 14 FWBaseRd b 15 FWWrite
+                     16 FWWriteFail 17 FWDisp (tree | nothing = HOther) 18 FWSid 19 FWCaps 20 FWErrCb 21 FWEvSet 22 FWDie e
+                     23 FWBcast 24 FWClose 25 FWExit
+             mpc: VL [VN 0..8] | VL [VN 9; r] | VL [VN 10; r]   r = VL [] (normal) | VL [VN err]
+             wpc: 0 WNot 1 WTop 2 WGot 3 WClr 4 WRdB 5 WFr 6 WOk0 7 WOk1 8 WErr0 9 WSet 10 WRaised 11 WClosing 12 WExiting 13 WDone *)
+From NC Require Import Model.Base Model.Caps Model.Writer Model.Negotiate Model.NegotiateSched.
 
 Definition unVB (v : val) : bytes := match v with VB b => b | _ => [] end.
 Definition unVBs (v : val) : list bytes := match v with VL l => map unVB l | _ => [] end.
@@ -40,9 +49,62 @@ Definition un_label (v : val) : label :=
   | VL [VN 5; VN m] => LPut m
   | _ => LDie
   end.
-Definition enc_herr (e : herr) : N := match e with ETimeout => 0 | ESessionClose => 1 | EParse => 2 | EChoose => 3 end.
+Definition enc_herr (e : herr) : N := match e with ETimeout => 0 | ESessionClose => 1 | EParse => 2 | EChoose => 3 | EOther => 4 end.
 Definition enc_main (m : mainst) : val :=
   match m with MWaiting => VL [VN 0] | MReturned None => VL [VN 1] | MReturned (Some e) => VL [VN 2; VN (enc_herr e)] end.
+
+Definition un_herr (n : N) : herr := match n with 0 => ETimeout | 1 => ESessionClose | 2 => EParse | 3 => EChoose | _ => EOther end.
+Definition un_flabel (v : val) : option flabel :=
+  match v with
+  | VL [VN 0] => Some FMReg
+  | VL [VN 1] => Some FMPend
+  | VL [VN 2] => Some FMPutHello
+  | VL [VN 3] => Some FMStart
+  | VL [VN 4; VN b] => Some (FMWait (negb (b =? 0)))
+  | VL [VN 5; VN b] => Some (FMIsSet (negb (b =? 0)))
+  | VL [VN 6] => Some FMUnreg
+  | VL [VN 7] => Some FMCaps
+  | VL [VN 8; VN 1] => Some FMBase
+  | VL [VN 9] => Some FMRet
+  | VL [VN 10; VN m] => Some (FMPut m)
+  | VL [VN 11; VN m] => Some (FWGet m)
+  | VL [VN 12; VN b] => Some (FWPendRd (negb (b =? 0)))
+  | VL [VN 13] => Some FWPendClr
+  | VL [VN 14; VN b] => Some (FWBaseRd (if b =? 0 then B10 else B11))
+  | VL [VN 15] => Some FWWrite
+  | VL [VN 16] => Some FWWriteFail
+  | VL [VN 17; t] => Some (FWDisp (HTree (un_node t)))
+  | VL [VN 17] => Some (FWDisp HOther)
+  | VL [VN 18] => Some FWSid
+  | VL [VN 19] => Some FWCaps
+  | VL [VN 20] => Some FWErrCb
+  | VL [VN 21] => Some FWEvSet
+  | VL [VN 22; VN e] => Some (FWDie (un_herr e))
+  | VL [VN 23] => Some FWBcast
+  | VL [VN 24] => Some FWClose
+  | VL [VN 25] => Some FWExit
+  | _ => None
+  end.
+Fixpoint frun (client : list bytes) (s : fstate) (ls : list val) (i : N) : fstate + N :=
+  match ls with
+  | [] => inl s
+  | v :: r =>
+      match un_flabel v with
+      | Some l => match fstep client s l with Some s' => frun client s' r (i + 1) | None => inr i end
+      | None => inr i
+      end
+  end.
+Definition enc_res (r : option herr) : val := match r with None => VL [] | Some e => VL [VN (enc_herr e)] end.
+Definition enc_mpc (m : mpc) : val :=
+  match m with
+  | M0 => VL [VN 0] | M1 => VL [VN 1] | M2 => VL [VN 2] | M3 => VL [VN 3] | M4 => VL [VN 4] | M5 => VL [VN 5]
+  | M6 => VL [VN 6] | M7 => VL [VN 7] | M8 => VL [VN 8] | M9 r => VL [VN 9; enc_res r] | MDone r => VL [VN 10; enc_res r]
+  end.
+Definition enc_wpc (w : wpc) : N :=
+  match w with
+  | WNot => 0 | WTop => 1 | WGot _ => 2 | WClr _ => 3 | WRdB _ => 4 | WFr _ _ => 5 | WOk0 _ _ => 6 | WOk1 _ => 7
+  | WErr0 _ _ => 8 | WSet _ => 9 | WRaised _ => 10 | WClosing => 11 | WExiting => 12 | WDone => 13
+  end.
 
 Definition run (v : val) : val :=
   match v with
@@ -63,5 +125,13 @@ Definition run (v : val) : val :=
                       enc_base (s_base s)]
       end
   | VL [VN 5; cl] => enc_node (build (unVBs cl))
+  | VL [VN 6; cl; VL labels] =>
+      match frun (unVBs cl) finit labels 0 with
+      | inr i => VL [VN 0; VN i]
+      | inl s => VL [VN 1; VL (map (fun fm => VL [enc_base (fst fm); VN (snd fm)]) (f_wire s)); enc_mpc (f_m s);
+                     enc_sid (f_sid s); match f_caps s with None => VL [] | Some l => VL [VL (map VB l)] end;
+                     enc_base (f_base s); vbool (f_pending s); vbool (f_lis s); vbool (f_ev s); vbool (f_conn s);
+                     VN (enc_wpc (f_w s)); enc_res (f_err s); VL (map VN (f_q s))]
+      end
   | _ => verr 1
   end.
